@@ -84,3 +84,25 @@ def guard_verdict(expr):
     i = parse_model(MODEL.format(inv="{ " + expr + " }", guard="true"))
     return {"guard_accepted": not g.get("errors"), "guard_errors": g.get("errors"),
             "invariant_accepted": not i.get("errors"), "invariant_errors": i.get("errors")}
+
+
+DECLS = """clock x, y; int i; int j; bool b; bool b2; double d; const int c = 3; int a[3]; int a2[3];
+typedef struct {{ int f; }} S; S s; S s1; typedef struct {{ int f; int g; }} S2; S2 s2; chan ch; broadcast chan bch;
+typedef scalar[3] sc_t; sc_t sc; sc_t sc1; int[0,5] ri;
+"""
+UPD_MODEL = DECLS + """process P() {{
+  state s0, s1;
+  init s0;
+  trans s0 -> s1 {{ assign {upd}; }};
+}}
+system P;
+"""
+
+
+def update_probe(upd):
+    """Type of an update expression in the standard declaration context."""
+    rc, out = run_replay("expr_probe", [], stdin=UPD_MODEL.format(upd=upd))
+    try:
+        return json.loads(out[out.index("{"):])
+    except Exception:
+        return {"rc": rc, "raw": out[-800:], "errors": ["<unparsable output>"], "updates": []}
